@@ -51,7 +51,13 @@ class Interp:
         env.pin_clock(1_700_000_000)
         env.pin_random(b'c18' + tag)           # an empty AMHL seed means random samples: keep the run a function of the case
         try:
-            self.amhl = T.setup_amhl(init['amhl_seed'], list(self.pks), fl, refund or None)
+            if init.get('vk'):
+                # the documented operand types: VerifyKey objects for the parties and as keys of the refund mapping
+                from nacl.signing import VerifyKey
+                self.amhl = T.setup_amhl(init['amhl_seed'], [VerifyKey(p) for p in self.pks], fl,
+                                         {VerifyKey(k): v for k, v in refund.items()} or None)
+            else:
+                self.amhl = T.setup_amhl(init['amhl_seed'], list(self.pks), fl, refund or None)
             self.other = T.setup_amhl(init['amhl_seed'] + b'other', list(self.pks), fl)
         finally:
             env.unpin_clock()
@@ -209,9 +215,9 @@ def make_machine(ctx):
             self.dead = False
 
         @initialize(tag=st.binary(min_size=1, max_size=2), n=st.integers(2, 8), amhl_seed=st.one_of(st.just(b''), st.binary(min_size=1, max_size=16), st.binary(min_size=1, max_size=16), st.binary(min_size=1, max_size=16)),
-                    flag=st.sampled_from([0, 0, 0, 1]), refund_mask=st.sampled_from([0, 0, 0xff, 0x05, 0x02]))
-        def setup(self, tag, n, amhl_seed, flag, refund_mask):
-            self.init = {'tag': tag, 'n': n, 'amhl_seed': amhl_seed, 'flag': flag, 'refund_mask': refund_mask}
+                    flag=st.sampled_from([0, 0, 0, 1]), refund_mask=st.sampled_from([0, 0, 0xff, 0x05, 0x02]), vk=st.sampled_from([False, False, True]))
+        def setup(self, tag, n, amhl_seed, flag, refund_mask, vk):
+            self.init = {'tag': tag, 'n': n, 'amhl_seed': amhl_seed, 'flag': flag, 'refund_mask': refund_mask, 'vk': vk}
             self.it = Interp(self.init)
             self._report()
 
